@@ -104,7 +104,7 @@ def main():
             extra_p = {"watchexec-filterer-globset": " -p watchexec-filterer-ignore",
                        "ignore-files": " -p watchexec-filterer-ignore -p watchexec-filterer-globset",
                        "watchexec-filterer-ignore": " -p watchexec-filterer-globset",
-                       "watchexec-events": " --features serde"}.get(c, "")
+                       "watchexec-events": " --features serde", "project-origins": " -p watchexec"}.get(c, "")
             rc, out, dt = sh(("cargo test -p %s" % c) + extra_p + " --offline 2>&1 | grep -E '^test result|FAILED|failed|panicked' | head -30", timeout=2400)
             fails = [l for l in out.splitlines() if "FAILED" in l or ("failed" in l and "0 failed" not in l)]
             ex[c] = {"ok": not fails, "summary": out[-1500:], "wall_s": round(dt)}
